@@ -3,6 +3,7 @@
 package sstables
 
 import (
+	"bytes"
 	"errors"
 
 	"github.com/thomasjungblut/go-sstables/sstables/proto"
@@ -202,3 +203,9 @@ func vDrainTable(it SSTableIteratorI, max int) (ks, vs [][]byte, err error, ok b
 	}
 	return ks, vs, nil, false
 }
+
+// vScaledComparator orders like skiplist.BytesComparator but answers with other magnitudes than -1/0/1, which
+// the comparator contract (< 0, == 0, > 0) allows: code that tests for exactly 1 or -1 is wrong with it.
+type vScaledComparator struct{}
+
+func (vScaledComparator) Compare(a, b []byte) int { return 3 * bytes.Compare(a, b) }
